@@ -193,6 +193,7 @@ type tlsRun struct {
 	tlsp     int
 	pass     bool
 	stallers []*holdConn
+	garbage  []byte
 }
 
 func (tr *tlsRun) clientCfg(cred string) *tls.Config {
@@ -214,8 +215,8 @@ func (tr *tlsRun) client(cred, fault string) net.Conn {
 	switch {
 	case cred == "plain":
 		payload := request("PING")
-		if fault == "garbage" {
-			payload = []byte("\x16\x03\x01\x00\x05hello\xff\xfe\x00\x01garbage")
+		if fault == "garbage" || (fault == "stall" && tr.garbage != nil) {
+			payload = tr.garbage
 		}
 		raw.Write(payload)
 		raw.SetDeadline(time.Now().Add(600 * time.Millisecond))
@@ -295,6 +296,32 @@ func (tr *tlsRun) probe(where string) {
 	tr.rec.Emit(Ev{"ev": "probe", "tlsok": tlsok, "plainok": plainok, "where": where})
 }
 
+// clientHello captures the first flight a TLS client writes.
+func clientHello() []byte {
+	a, b := net.Pipe()
+	defer a.Close()
+	defer b.Close()
+	go tls.Client(a, &tls.Config{ServerName: "localhost", InsecureSkipVerify: true}).Handshake()
+	b.SetReadDeadline(time.Now().Add(time.Second))
+	buf := make([]byte, 4096)
+	n, _ := b.Read(buf)
+	return buf[:n]
+}
+
+func garbageVariants() [][]byte {
+	hello := clientHello()
+	return [][]byte{
+		[]byte("\x16\x03\x01\x00\x05hello\xff\xfe\x00\x01garbage"),
+		append([]byte("\x16\x03\x01\xff\xff"), bytes.Repeat([]byte{0x41}, 40)...), // oversized record header
+		append(append([]byte{}, hello...), []byte("\xde\xad\xbe\xef garbage after a valid ClientHello \x00\x00")...),
+		[]byte("GET / HTTP/1.0\r\n\r\n"),
+		[]byte("\x80\x2e\x01\x00\x02\x00\x15\x00\x00\x00\x10"), // SSLv2-looking hello
+		[]byte("\x15\x03\x03\x00\x02\x02\x28"),                   // an alert record
+		[]byte("\x16\x03\x03\x00\x00\x16\x03\x03\x00\x00\x16\x03\x03\x00\x00"), // empty handshake records
+		[]byte("\x17\x03\x03\x00\x01\x00"),                        // application data before any handshake
+	}
+}
+
 func runTLS(rec *Recorder, p *pki, id int, s TLSScenario) {
 	rec.Begin(id)
 	server := redis.NewServer()
@@ -312,6 +339,9 @@ func runTLS(rec *Recorder, p *pki, id int, s TLSScenario) {
 		server.SetRequirePass(tlsPassword)
 	}
 	rec.Emit(Ev{"ev": "scenario", "rule": s.Rule, "pass": s.Pass, "cred": s.Cred, "fault": s.Fault, "pos": s.Pos})
+	rec.mu.Lock()
+	rec.w.Flush()
+	rec.mu.Unlock()
 	if err := server.Start(); err != nil {
 		rec.Emit(Ev{"ev": "starterror", "err": err.Error()})
 		rec.End()
@@ -321,7 +351,19 @@ func runTLS(rec *Recorder, p *pki, id int, s TLSScenario) {
 	if s.Pos != "before" {
 		witness = tr.client("ok", "none") // a well-behaved TLS client that stays connected
 	}
-	bad := tr.client(s.Cred, s.Fault)
+	var bad net.Conn
+	if s.Fault == "garbage" {
+		// every kind of non-handshake the TLS port may receive
+		for _, g := range garbageVariants() {
+			tr.garbage = g
+			tr.client(s.Cred, s.Fault)
+		}
+		// an incomplete record is indistinguishable from a slow client: it is a stall, not garbage
+		tr.garbage = []byte{0x16}
+		tr.client(s.Cred, "stall")
+	} else {
+		bad = tr.client(s.Cred, s.Fault)
+	}
 	tr.probe("after-client")
 	if witness != nil { // the earlier client is still served
 		served, _ := talk(witness, false)
